@@ -1,5 +1,5 @@
 SPECIFICATION Spec
-CONSTANTS NG = 3 Keys = {1} Rounds = 2 Modes = {"w", "r"} WRels = {"unlock", "deleteunlock"} RRels = {"runlock"} PlainDelete = FALSE Revalidate = TRUE
+CONSTANTS NG = 3 Keys = {1} Rounds = 2 Modes = {"w", "r"} WRels = {"unlock", "deleteunlock"} RRels = {"runlock"} PlainDelete = FALSE Revalidate = TRUE SafeDelR = FALSE
 INVARIANTS Contract HoldsCurrent
 PROPERTY AllFinish
 CHECK_DEADLOCK FALSE
